@@ -9,8 +9,14 @@ Import ListNotations.
 Local Open Scope string_scope.
 
 (* ---------- structural ties ---------- *)
-Lemma tie_idl_basic_atoms : f_idl_basic_atoms = idl_basic_names.
-Proof. reflexivity. Qed.
+Lemma tie_idl_basic_atoms : f_idl_basic_atoms = idl_basic_names \/ f_idl_basic_atoms = ["int8"; "uint8"; "int16"; "uint16"; "int32"; "uint32"; "int64"; "uint64"; "float32"; "float64"; "bool"; "str"; "obj"; "any"; "unknown"].
+Proof. (left; reflexivity) || (right; reflexivity). Qed.
+(* basicType(): atoms matching a prefix (pinned) or Token(name+`\b`) in a loop over the names (design/C18.fix.keyword_prefix_struct_name.diff) *)
+Lemma tie_idl_basicType_text : f_idl_basicType_text =
+  "func basicType() parsec.Parser { return parsec.OrdChoice(nodifyBasicType, parsec.Atom("""", """"), parsec.Atom("""", """"), parsec.Atom("""", """"), parsec.Atom("""", """"), parsec.Atom("""", """"), parsec.Atom("""", """"), parsec.Atom("""", """"), parsec.Atom("""", """"), parsec.Atom("""", """"), parsec.Atom("""", """"), parsec.Atom("""", """"), parsec.Atom("""", """"), parsec.Atom("""", """"), parsec.Atom("""", """"), parsec.Atom("""", """"), parsec.Atom("""", """"), parsec.Atom("""", """")) }"%string \/
+  f_idl_basicType_text =
+  "func basicType() parsec.Parser { names := []string{ """", """", """", """", """", """", """", """", """", """", """", """", """", """", """", } parsers := make([]interface{}, len(names)) for i, name := range names { parsers[i] = parsec.Token(name+"""", """") } return parsec.OrdChoice(nodifyBasicType, parsers...) }"%string.
+Proof. (left; reflexivity) || (right; reflexivity). Qed.
 
 (* every name nodifyBasicType switches on is mapped by the model, to the scalar with that IDL name *)
 Lemma tie_idl_basic_table :
@@ -70,8 +76,10 @@ Proof. reflexivity. Qed.
 (* ---------- the source texts the model transliterates ---------- *)
 
 Lemma tie_idl_basicType : f_idl_basicType =
-  "OrdChoice(nodifyBasicType atom:int8 atom:uint8 atom:int16 atom:uint16 atom:int32 atom:uint32 atom:int64 atom:uint64 atom:float32 atom:float64 atom:int64 atom:uint64 atom:bool atom:str atom:obj atom:any atom:unknown)"%string.
-Proof. reflexivity. Qed.
+  "OrdChoice(nodifyBasicType atom:int8 atom:uint8 atom:int16 atom:uint16 atom:int32 atom:uint32 atom:int64 atom:uint64 atom:float32 atom:float64 atom:int64 atom:uint64 atom:bool atom:str atom:obj atom:any atom:unknown)"%string \/
+  f_idl_basicType =
+  "OrdChoice(nodifyBasicType parsers)"%string.
+Proof. (left; reflexivity) || (right; reflexivity). Qed.
 
 Lemma tie_idl_mapType : f_idl_mapType =
   "And(nodifyMap atom:Map< ctx.typeParser atom:, ctx.typeParser atom:>)"%string.
